@@ -352,15 +352,27 @@ def single_step(ctx, rng, idx):
         raise core.Skip("no finite dt")
     local = bool(rng.random() < 0.4)
     dt = np.array(dtc, float) if local else float(np.min(dtc))
-    ctx.describe(integrator=iname, t_start=t0, dt=dt, local=local, **s.desc())
+    form = "array per cell"
+    if not local:       # one global value in every form a caller may use
+        k_ = int(rng.integers(4))
+        dt = [float(dt), np.float64(dt), np.array(float(dt)), np.array([float(dt)])][k_]
+        form = ["python float", "numpy scalar", "0-d array", "array of shape (1,)"][k_]
+    ctx.describe(integrator=iname, t_start=t0, dt=dt, local=local, dt_given_as=form, **s.desc())
     solver = gen.integ(iname)(s.mesh, s.disc)
     nst = gen.NSTAGE[iname]
     before = [d.copy() for d in f.data]
     for k in range(3):
-        tb = f.time
-        solver.step(f, dt)
+        tb = float(np.asarray(f.time, float).ravel()[0])
+        try:
+            solver.step(f, dt)
+        except np.linalg.LinAlgError:
+            raise core.Skip("singular implicit system")
+        ctx.true("step-advance", np.ndim(f.time) == 0, "step/%s/field-time-not-a-scalar-after-a-step" % iname, {"time": f.time, "dt given as": form}, cls="step-advance")
+        if not np.all(np.isfinite(np.asarray(f.time, float))):
+            break
         dtm = float(np.min(dt))
         tol = 8 * nst * max(ulp(abs(tb) + abs(dtm)), ulp(dtm))
-        ctx.close("step-advance", abs((f.time - tb) - dtm) / tol, 1.0, "step/%s/time-advance-not-dt" % iname,
-                  {"t0": tb, "t1": f.time, "dt": dtm, "advance/dt": (f.time - tb) / dtm, "call": k}, cls="step-advance")
+        t1_ = float(np.asarray(f.time, float).ravel()[0])
+        ctx.close("step-advance", abs((t1_ - tb) - dtm) / tol, 1.0, "step/%s/time-advance-not-dt" % iname,
+                  {"t0": tb, "t1": t1_, "dt": dtm, "advance/dt": (t1_ - tb) / dtm, "call": k, "dt given as": form}, cls="step-advance")
     ctx.nontrivial("step", iname, t0, local, s.desc())
